@@ -181,7 +181,7 @@ type mutation struct {
 }
 
 // mutations that need a multiplexer apply to few sites: they are tried more often
-var mutationWeight = map[string]int{"mux-groups": 4, "nested-name-clash": 3, "deep-name-clash": 4, "group-count-boundary": 4, "cross-mux-ref": 4, "retarget-id": 3, "size-fields": 4}
+var mutationWeight = map[string]int{"mux-groups": 4, "nested-name-clash": 3, "deep-name-clash": 4, "group-count-boundary": 4, "cross-mux-ref": 4, "retarget-id": 3, "size-fields": 4, "overlap-in-shared-group": 5}
 
 func pickMutation(r *rng) mutation {
 	total := 0
@@ -802,6 +802,51 @@ var mutations = []mutation{
 		}
 		return ""
 	}},
+	{"overlap-in-shared-group", func(r *rng, n *pb.Network, s *sites) string {
+		// a signal held by one group is referenced from a further group where it overlaps a signal of that group
+		// (start bits at most 2 apart): the loader must run the per-group overlap check also for a signal that
+		// another group already holds
+		for t := 0; t < 30 && len(s.muxes) > 0; t++ {
+			m := s.muxes[r.below(len(s.muxes))]
+			if len(m.Groups) < 2 {
+				continue
+			}
+			fixed := map[string]bool{}
+			for _, id := range m.FixedSignalEntityIds {
+				fixed[id] = true
+			}
+			gi := r.below(len(m.Groups))
+			g := m.Groups[gi]
+			in := map[string]bool{}
+			for _, x := range g.Refs {
+				in[x.SignalEntityId] = true
+			}
+			var cands []*pb.SignalPayloadRef
+			for gj, h := range m.Groups {
+				if gj == gi {
+					continue
+				}
+				for _, y := range h.Refs {
+					if fixed[y.SignalEntityId] || in[y.SignalEntityId] {
+						continue
+					}
+					for _, x := range g.Refs {
+						if d := int(y.RelStartBit) - int(x.RelStartBit); d >= -2 && d <= 2 {
+							cands = append(cands, y)
+							break
+						}
+					}
+				}
+			}
+			if len(cands) == 0 {
+				continue
+			}
+			y := cands[r.below(len(cands))]
+			g.Refs = append(g.Refs, &pb.SignalPayloadRef{SignalEntityId: y.SignalEntityId, RelStartBit: y.RelStartBit})
+			return "signal of another group referenced from a further group where it overlaps a signal of that group"
+		}
+		return ""
+	}},
 	{"group-count-boundary", func(r *rng, n *pb.Network, s *sites) string {
 		// the groups list has exactly group_count + 1 (or - 1) entries; the extra one holds a non-fixed signal
 		if len(s.muxes) == 0 {
@@ -1053,7 +1098,13 @@ func invariants(n *acmelib.Network) (out []string, panicked string) {
 			panicked = fmt.Sprint(r) + " at " + panicSite()
 		}
 	}()
-	out = append(out, vinv.CheckNetwork(n)...)
+	for _, b := range vinv.CheckNetwork(n) {
+		// the receiver relation is evaluated below, witness by witness (the shared evaluator names the class only)
+		if c := clause(b); c == "c05-message-receiver-link" || c == "c05-receiver-link" {
+			continue
+		}
+		out = append(out, b)
+	}
 	_, col := dumpNet(n)
 	for _, m := range col.msgs {
 		out = append(out, vinv.CheckMessageLayout(m)...)
@@ -1078,6 +1129,10 @@ func invariants(n *acmelib.Network) (out []string, panicked string) {
 				out = append(out, fmt.Sprintf("c05-signal-message-link: signal %q inside message %q reports another parent message", s.Name(), m.Name()))
 			}
 			if ms, err := s.ToMultiplexer(); err == nil && s.Kind() == acmelib.SignalKindMultiplexer {
+				// every group of every multiplexer: sorted, pairwise disjoint, inside the group size (C07)
+				for _, b := range vinv.CheckMultiplexer(ms) {
+					out = append(out, "c07-mux-"+b)
+				}
 				for _, g := range ms.GetSignalGroups() {
 					for _, c := range g {
 						if c.ParentMultiplexerSignal() != ms {
@@ -1145,26 +1200,45 @@ func invariants(n *acmelib.Network) (out []string, panicked string) {
 					if rc == ni {
 						out = append(out, "c05-receiver-is-sender: an interface receives a message it sends")
 					}
-					found := false
-					for _, rm := range rc.ReceivedMessages() {
-						if rm == m {
-							found = true
-						}
-					}
-					if !found {
-						out = append(out, "c05-receiver-link: a receiver of a message does not list the message as received")
-					}
 				}
 			}
+		}
+	}
+	// the receiver relation and its converse, over every message and every interface of every node met.
+	// Recorded finding D22 (receivers keyed by node): interface A of a node is replaced in Receivers() by a second
+	// interface B of the SAME node while A keeps listing the message as received.  Only that witness carries the
+	// recorded clause; any other broken link has its own clause.
+	for _, m := range col.msgs {
+		for _, rc := range m.Receivers() {
+			found := false
+			for _, rm := range rc.ReceivedMessages() {
+				if rm == m {
+					found = true
+				}
+			}
+			if !found {
+				out = append(out, fmt.Sprintf("c05-receiver-not-registered: message %q lists receiver %q/%d which does not list it as received", m.Name(), rc.Node().Name(), rc.Number()))
+			}
+		}
+	}
+	for _, nd := range col.nodes {
+		for _, ni := range nd.Interfaces() {
 			for _, rm := range ni.ReceivedMessages() {
-				found := false
+				found, sameNodeOther := false, false
 				for _, rc := range rm.Receivers() {
 					if rc == ni {
 						found = true
+					} else if rc.Node() == nd {
+						sameNodeOther = true
 					}
 				}
-				if !found {
-					out = append(out, "c05-receiver-link: an interface lists a received message that does not list it as receiver")
+				if found {
+					continue
+				}
+				if sameNodeOther {
+					out = append(out, fmt.Sprintf("c05-received-but-replaced-by-second-interface-of-same-node: interface %q/%d lists message %q as received, the message lists another interface of that node instead", nd.Name(), ni.Number(), rm.Name()))
+				} else {
+					out = append(out, fmt.Sprintf("c05-received-message-does-not-list-receiver: interface %q/%d lists message %q as received, the message lists no interface of that node", nd.Name(), ni.Number(), rm.Name()))
 				}
 			}
 		}
@@ -1473,7 +1547,13 @@ func runC13(seed uint64, ncases int, outPath string, replay string) {
 				if strings.Contains(iso.msg, "out of memory") || strings.Contains(iso.msg, "cannot allocate") {
 					kind = "out-of-memory"
 				}
-				st.fail("c13-fatal@"+iso.site+":"+kind, fmt.Sprintf("LoadNetwork(%s) brings the process down (%s) in %s under a 4 GiB address-space limit; input (%d bytes): %s", eid, iso.msg, iso.site, size, in.descr), size, replayObj)
+				// the field the allocation is made from: the interface count when the process dies creating the
+				// node's interfaces, otherwise every huge field of the input
+				field := hk
+				if strings.Contains(iso.site, "newNodeFromEntity") && strings.Contains("+"+hk+"+", "+interface_count+") {
+					field = "interface_count"
+				}
+				st.fail("c13-fatal@"+iso.site+":"+kind+"+"+field, fmt.Sprintf("LoadNetwork(%s) brings the process down (%s) in %s under a 4 GiB address-space limit; input (%d bytes): %s", eid, iso.msg, iso.site, size, in.descr), size, replayObj)
 			}
 			return
 		}
@@ -1531,8 +1611,8 @@ func runC13(seed uint64, ncases int, outPath string, replay string) {
 			if o.err != nil {
 				fmt.Fprintf(out, "L %s %s (err)\n", in.id, eid)
 			} else {
-				gotSX, _ := dumpLoadedNet(o.net)
-				fmt.Fprintf(out, "L %s %s (ok %s)\n", in.id, eid, gotSX.String())
+				gotSX, gcol := dumpLoadedNet(o.net)
+				fmt.Fprintf(out, "L %s %s (ok %s %s)\n", in.id, eid, gotSX.String(), dumpReceived(gcol).String())
 			}
 		}
 	}
@@ -1670,5 +1750,9 @@ func runC13(seed uint64, ncases int, outPath string, replay string) {
 		keys = append(keys, k)
 	}
 	sort.Strings(keys)
+	fmt.Fprintf(out, "END %d\n", st.cases)
+	if err := out.Flush(); err != nil {
+		panic(err)
+	}
 	writeSummary(outPath+".summary", st)
 }
